@@ -19,14 +19,15 @@ std::string prop_generate(Tape & t, int size) {
     go.allow_big = size >= 70;
     go.allow_gaps = true;
     go.sample_budget = 9000;
-    Program p = gen_general(t, size, go);
+    bool big = t.chance(1, 6);      // ~1-5 KiB data chunks: chunk headers at the edges of the reader's 1 KiB backward-scan windows
+    Program p = big ? gen_bigblock(t, size) : gen_general(t, size, go);
     mj::Value c = mj::Value::object();
     size_t mode = t.weighted({3, 6, 1});
     static const char * M[] = {"closed", "images", "real"};
     c.set("mode", M[mode]);
     p.close = (mode != 1) ? true : t.coin();
     c.set("program", program_to_json(p));
-    c.set("stride", (long long) t.pick(std::vector<int64_t>{23, 31, 47, 17}));
+    c.set("stride", (long long) (big ? t.pick(std::vector<int64_t>{2, 3, 5}) : t.pick(std::vector<int64_t>{23, 31, 47, 17})));
     c.set("phase", (long long) t.range(0, 46));
     c.set("rseed", (long long) t.range(1, 1000));
     return mj::dump(c);
@@ -130,6 +131,10 @@ CaseOutcome prop_execute(const std::string & case_json) {
         if (!f.violations.empty() || !f.closed) {
             std::string v = f.violations.empty() ? std::string("no END chunk / header length mismatch") : f.violations[0];
             oc.fail("not_well_formed_after_open", strf("%s: after the first open: %s", where.c_str(), v.c_str()));
+            if (const char * keep = getenv("VERIF_KEEP_IMG")) {   // debugging aid: image before and after the repairing open
+                FILE * fp = fopen((std::string(keep) + ".before").c_str(), "wb"); if (fp) { fwrite(img.data(), 1, img.size(), fp); fclose(fp); }
+                fp = fopen((std::string(keep) + ".after").c_str(), "wb"); if (fp) { fwrite(b1.data(), 1, b1.size(), fp); fclose(fp); }
+            }
             if (cp.inplace && cp.b > 0 && v.find("CRC mismatch") != std::string::npos) oc.known = "KF-C03-1";
             break;
         }
